@@ -55,8 +55,7 @@ const std::vector<Token*> Lexer::makeTokens() {
             if (idx >= expr->size() || currentChar != '/') {
                 tokens.emplace_back(new Token(TokenType::SLASH, line, column));
             } else {
-                int commentLine = line;
-                while (line == commentLine && idx < expr->size()) advance();
+                while (idx < expr->size() && currentChar != '\n') advance();
             }
             continue;
         } else if (currentChar == '(') {
